@@ -246,17 +246,27 @@ def SInvO (D : List Nat) (o : Option State) : Prop := ∀ s', o = some s' → SI
 theorem SInvO.of_eq {D : List Nat} {s : State} {o : Option State} (i : SInv D s) (he : AgEqO s o) (hn : NsEqO s o) : SInvO D o := by
   intro s' e; exact sinv_eq (he s' e) (hn s' e) i
 
-theorem sinv_wakeAgent {D : List Nat} (s : State) (h : AInv s) (i : SInv D s) : SInvO D (wakeAgent s) := by
+theorem sinv_renderWoken {D : List Nat} (l : Bool) (s : State) (h : AInv s) (i : SInv D s) : SInvO D (renderWoken l s) := by
+  unfold renderWoken
+  split
+  · simp
+  · rename_i a hf
+    have ha : a ∈ s.agents := pickAgent_mem hf
+    rw [sinvO_some]
+    refine sinv_nsv (s := s) ?_ (by simp) i
+    rw [answer_agents]; exact nsv_setAgent s a _ h.nodup ha rfl rfl
+
+theorem sinv_wakeAgent {D : List Nat} (l : Bool) (s : State) (h : AInv s) (i : SInv D s) : SInvO D (wakeAgent l s) := by
   unfold wakeAgent
   split
   · simp
   · rename_i a hf
-    have ha : a ∈ s.agents := List.mem_of_find?_eq_some hf
+    have ha : a ∈ s.agents := pickAgent_mem hf
     dsimp only
     split
     · rw [sinvO_some]
       refine sinv_nsv (s := s) ?_ (by simp) i
-      rw [answer_agents]; exact nsv_setAgent s a _ h.nodup ha rfl rfl
+      exact nsv_setAgent s a _ h.nodup ha rfl rfl
     · rw [sinvO_some]
       refine sinv_nsv (s := s) ?_ (by simp) i
       rw [answer_agents]; exact nsv_setAgent s a _ h.nodup ha rfl rfl
@@ -571,15 +581,16 @@ theorem sinvO_platformMove {D : List Nat} (lifo : Bool) (s : State) (h : AInv s)
        obtain ⟨f, _, hm⟩ := firstSome_spec _ _ _ hs
        exact SInvO.of_eq i (flightMove_agents s f) (flightMove_ns s f) s' hm)
 
-theorem sinvO_wakeMove {D : List Nat} (s : State) (h : AInv s) (i : SInv D s) : SInvO D (wakeMove s) := by
+theorem sinvO_wakeMove {D : List Nat} (l : Bool) (s : State) (h : AInv s) (i : SInv D s) : SInvO D (wakeMove l s) := by
   unfold wakeMove
-  refine sinvO_orElse' ?_ (sinv_wakeAgent s h i)
+  refine sinvO_orElse' ?_ (sinv_wakeAgent l s h i)
   intro s' hs
   exact sinv_eq (wakeRt_agents hs) (wakeRt_ns hs) i
 
 theorem sinvO_progress {D : List Nat} (v : Nat) (s : State) (h : AInv s) (i : SInv D s) : SInvO D (progress v s) := by
   have hp := fun l => sinvO_platformMove (D := D) l s h i
-  have hw := sinvO_wakeMove s h i
+  have hw := fun l => sinvO_wakeMove (D := D) l s h i
+  have hr := fun l => sinv_renderWoken (D := D) l s h i
   have hk := SInvO.of_eq i (killMove_agents s) (killMove_ns s)
   unfold progress
   splits <;> first
@@ -587,19 +598,22 @@ theorem sinvO_progress {D : List Nat} (v : Nat) (s : State) (h : AInv s) (i : SI
     | (rw [sinvO_some]; apply sinv_watchOne
        · exact h
        · exact i)
-    | exact sinvO_orElse' hw (sinvO_orElse' (hp _) hk)
-    | exact sinvO_orElse' (hp _) (sinvO_orElse' hw hk)
-    | exact sinvO_orElse' (hp _) (sinvO_orElse' hk hw)
+    | exact sinvO_orElse' (sinvO_orElse' (hw _) (sinvO_orElse' (hp _) hk)) (hr _)
+    | exact sinvO_orElse' (sinvO_orElse' (hp _) (sinvO_orElse' (hw _) hk)) (hr _)
+    | exact sinvO_orElse' (sinvO_orElse' (hp _) (sinvO_orElse' hk (hw _))) (hr _)
+    | exact sinvO_orElse' (hr _) (sinvO_orElse' (hw _) (sinvO_orElse' (hp _) hk))
+    | exact sinvO_orElse' (hr _) (sinvO_orElse' (hp _) (sinvO_orElse' (hw _) hk))
+    | exact sinvO_orElse' (hr _) (sinvO_orElse' (hp _) (sinvO_orElse' hk (hw _)))
 
 theorem sinv_settle {D : List Nat} (v n : Nat) (s : State) (h : AInv s) (i : SInv D s) : SInv D (settle v n s) := by
-  induction n generalizing s with
+  induction n generalizing v s with
   | zero => exact i
   | succ n ih =>
     unfold settle
     split
     · exact i
     · rename_i s' hp
-      exact ih s' (ainvO_progress v s h s' hp) (sinvO_progress v s h i s' hp)
+      exact ih _ s' (ainvO_progress v s h s' hp) (sinvO_progress v s h i s' hp)
 
 theorem sinv_applyOp {D : List Nat} (s : State) (o : Op) (h : AInv s) (i : SInv D s) : SInv D (applyOp s o) := by
   cases o with
